@@ -31,6 +31,23 @@ type c09Case struct {
 	KeepAlive int          `json:"keepAlive,omitempty"`
 	Will      bool         `json:"will,omitempty"`
 	User      bool         `json:"user,omitempty"`
+	IDKind    int          `json:"idKind,omitempty"` // 0 "verif-c09", 1 empty, 2 300 bytes, 3 non-ASCII
+}
+
+func c09ClientID(kind int) string {
+	switch kind {
+	case 1:
+		return ""
+	case 2:
+		s := "verif-c09-"
+		for len(s) < 300 {
+			s += "0123456789abcdef"
+		}
+		return s
+	case 3:
+		return "vérif/c09 日本 +#"
+	}
+	return "verif-c09"
 }
 
 type c09Result struct {
@@ -54,7 +71,7 @@ func c09Run(tb rapid.TB, c c09Case) {
 		k := i + 1
 		switch a.Outcome {
 		case "dialErr":
-			plan = append(plan, e4Fault{Kind: "dialErr", Conn: k})
+			plan = append(plan, e4Fault{Kind: "dialErr", Conn: k, Code: a.Code})
 		case "refuse":
 			plan = append(plan, e4Fault{Kind: "refuse", Conn: k, Code: a.Code})
 		case "silent":
@@ -155,7 +172,7 @@ func c09Run(tb rapid.TB, c c09Case) {
 	}
 	connRet := make(chan error, 1)
 	go func() {
-		_, err := cli.Connect(ctx, "verif-c09", copts...)
+		_, err := cli.Connect(ctx, c09ClientID(c.IDKind), copts...)
 		connRet <- err
 	}()
 
@@ -387,7 +404,7 @@ func c09Run(tb rapid.TB, c c09Case) {
 		if first.Type != rtConnect || nConnect != 1 {
 			fail("connection c%d: first packet %v, %d CONNECT packets (want exactly one CONNECT first)", bc.id, *first, nConnect)
 		}
-		want := refPacket{Type: rtConnect, ProtoName: "MQTT", ProtoLevel: 4, CleanSession: c.Clean, KeepAlive: c.KeepAlive, ClientID: "verif-c09"}
+		want := refPacket{Type: rtConnect, ProtoName: "MQTT", ProtoLevel: 4, CleanSession: c.Clean, KeepAlive: c.KeepAlive, ClientID: c09ClientID(c.IDKind)}
 		if c.Will {
 			want.HasWill, want.WillTopic, want.WillPayload, want.WillQoS, want.WillRetain = true, "will/t", []byte("gone"), 1, true
 		}
@@ -506,6 +523,7 @@ func c09Gen(rt *rapid.T) c09Case {
 		KeepAlive: rapid.SampledFrom([]int{0, 0, 60, 65535}).Draw(rt, "ka"),
 		Will:      rapid.Bool().Draw(rt, "will"),
 		User:      rapid.Bool().Draw(rt, "user"),
+		IDKind:    rapid.SampledFrom([]int{0, 0, 1, 2, 3}).Draw(rt, "idKind"),
 	}
 	c.MaxUs = c.BaseUs * rapid.SampledFrom([]int{1, 2, 4, 8}).Draw(rt, "maxMul")
 	if rapid.IntRange(0, 9).Draw(rt, "maxBelowBase") == 0 {
@@ -516,6 +534,11 @@ func c09Gen(rt *rapid.T) c09Case {
 		a := c09Attempt{Outcome: rapid.SampledFrom(outcomes).Draw(rt, "outcome")}
 		if a.Outcome == "refuse" {
 			a.Code = rapid.IntRange(1, 5).Draw(rt, "code")
+		}
+		if a.Outcome == "dialErr" {
+			// the flavour of the dial error: plain, or one that has a context error in its chain (a dialler with its
+			// own per-attempt timeout) although the loop's context is alive
+			a.Code = rapid.SampledFrom([]int{0, 0, 1, 2}).Draw(rt, "dialErrKind")
 		}
 		return a
 	}), 0, 7).Draw(rt, "attempts")
